@@ -2,6 +2,7 @@ package realrepro
 
 import (
 	"bytes"
+	"strings"
 	"testing"
 	"time"
 
@@ -13,10 +14,10 @@ import (
 // C07: an empty (or zero-width) style component made the fill loops spin for ever.
 func TestC07EmptyComponentTerminates(t *testing.T) {
 	for name, f := range map[string]mpb.BarFiller{
-		"Padding(\"\")":        mpb.BarStyle().Padding("").Build(),
-		"Filler(\"\")":         mpb.BarStyle().Filler("").Build(),
-		"Refiller(\"\")":       mpb.BarStyle().Refiller("").Build(),
-		"Filler(combining)":    mpb.BarStyle().Filler("́").Build(),
+		"Padding(\"\")":     mpb.BarStyle().Padding("").Build(),
+		"Filler(\"\")":      mpb.BarStyle().Filler("").Build(),
+		"Refiller(\"\")":    mpb.BarStyle().Refiller("").Build(),
+		"Filler(combining)": mpb.BarStyle().Filler("́").Build(),
 	} {
 		done := make(chan string, 1)
 		go func() {
@@ -42,5 +43,28 @@ func TestC07WideTipFits(t *testing.T) {
 	_ = f.Fill(&buf, decor.Statistics{AvailableWidth: 3, Total: 4, Current: 2})
 	if w := runewidth.StringWidth(buf.String()); w != 3 {
 		t.Errorf("Tip(\"=>\") at width 3: body is %d columns wide: %q", w, buf.String())
+	}
+}
+
+// C07 (C04), reported by two bug-hunting sub-agents and reproduced by the c07-row-message-fillers cases:
+// BarFillerOnComplete / BarFillerOnAbort wrote their message without looking at the width left for the filler, so
+// the row of a finished bar could be wider than the terminal (and wrap, leaving stale lines behind).
+func TestC07MessageFillerFitsTheRow(t *testing.T) {
+	for _, w := range []int{10, 20, 40} {
+		var out strings.Builder
+		refresh := make(chan interface{})
+		p := mpb.New(mpb.WithOutput(&out), mpb.WithWidth(w), mpb.WithManualRefresh(refresh))
+		b := p.AddBar(3, mpb.BarFillerOnComplete("all 3 files were downloaded and verified"),
+			mpb.PrependDecorators(decor.Name("job")), mpb.AppendDecorators(decor.Percentage()))
+		b.IncrBy(3)
+		refresh <- time.Now()
+		refresh <- time.Now()
+		p.Wait()
+		for _, line := range strings.Split(out.String(), "\n") {
+			line = strings.TrimPrefix(line, "\x1b[1A\x1b[J")
+			if n := runewidth.StringWidth(line); n > w {
+				t.Errorf("container width %d: row %q is %d columns wide", w, line, n)
+			}
+		}
 	}
 }
